@@ -284,6 +284,8 @@ def mod_labels(labels, mod):
         labels[pos] = 3 * labels[pos] + 2
     elif mod == "rev":
         labels[pos] = labels[pos].max() - labels[pos] if pos.any() else labels[pos]
+    elif mod == "pairs":  # a coarser grouping than the particles: consecutive particles displaced together as one group
+        labels[pos] = labels[pos] // 2
     elif mod == "someneg":
         labels[pos & (labels % 2 == 1)] = -1
     elif mod == "allneg":
